@@ -546,7 +546,7 @@ func (d *DataStore) appendIndexHostsFromHostColumns(uniqHosts map[string]bool, f
 		case RegexMatch, RegexNoCaseMatch, Contains, ContainsNoCase:
 			store := d.dataSet.Get(TableHostgroups)
 			for groupname, group := range store.index {
-				if fil.MatchString(strings.ToLower(groupname)) {
+				if fil.MatchString(groupname) {
 					members := group.GetStringListByName("members")
 					for _, m := range members {
 						uniqHosts[m] = true
@@ -618,7 +618,7 @@ func (d *DataStore) appendIndexHostsFromServiceColumns(uniqHosts map[string]bool
 		case RegexMatch, RegexNoCaseMatch, Contains, ContainsNoCase:
 			store := d.dataSet.Get(TableHostgroups)
 			for groupname, group := range store.index {
-				if fil.MatchString(strings.ToLower(groupname)) {
+				if fil.MatchString(groupname) {
 					members := group.GetStringListByName("members")
 					for _, m := range members {
 						uniqHosts[m] = true
